@@ -193,7 +193,22 @@ func (c *compiler) evalUserFunction(node *userFunction, args []ast.Expression) (
 		c.ctx.Set(p.Value, vals[i])
 	}
 
-	return c.evalBlockStatement(node.Block)
+	res, err := c.evalBlockStatement(node.Block)
+	if err != nil {
+		return nil, err
+	}
+
+	// a body that produced nothing but a returned value yields that value itself,
+	// so that the result can be compared, tested and passed on like any other value
+	for {
+		ro, ok := res.(returnObject)
+		if !ok || len(ro.Value) != 1 {
+			break
+		}
+		res = ro.Value[0]
+	}
+
+	return res, nil
 }
 
 func (c *compiler) evalFunctionLiteral(node *ast.FunctionLiteral) (interface{}, error) {
